@@ -7,6 +7,32 @@ ROOT = R.ROOT
 KF_PATH = os.path.join(ROOT, "known_findings.json")
 
 
+REGIONS = os.path.join(ROOT, "known_regions")
+
+
+def load_frozen(prop):
+    """recorded failing inputs per open finding (hashes of the spec descriptions); None if nothing was recorded"""
+    import gzip
+    path = os.path.join(REGIONS, prop + ".json.gz")
+    if not os.path.exists(path):
+        return None
+    with gzip.open(path, "rt") as fh:
+        d = json.load(fh)
+    return {k: set(v) for k, v in d.items()}
+
+
+def save_frozen(prop, keys):
+    import gzip
+    os.makedirs(REGIONS, exist_ok=True)
+    path = os.path.join(REGIONS, prop + ".json.gz")
+    old = load_frozen(prop) or {}
+    for k, v in keys.items():
+        old.setdefault(k, set()).update(v)
+    with gzip.open(path, "wt") as fh:
+        json.dump({k: sorted(v) for k, v in sorted(old.items())}, fh)
+    return {k: len(v) for k, v in old.items()}
+
+
 def load_findings(prop):
     try:
         data = json.load(open(KF_PATH))
@@ -81,7 +107,11 @@ def finish(check, tier, merged, t0, coverage_extra=None, rejudge=None, extra_vio
         def rejudge(f, results):
             spec = pickle.loads(base64.b64decode(f["spec_b64"]))
             _, ctx = check.build(spec)
-            return check.judge(spec, ctx, results)
+            v = check.judge(spec, ctx, results)
+            if not v.ok and v.finding:
+                from .engine import apply_frozen
+                apply_frozen(check, spec, v)
+            return v
     findings = load_findings(check.id)
     open_f = [f for f in findings if f.get("status") == "open"]
     lines = []
